@@ -295,6 +295,9 @@ def build_family(fam):
 
 def gen_cfg_family(rng):
     names = list("abcdef")[:rng.randint(3, 6)]
+    if rng.random() < 0.3:
+        # item names as catalogues have them: capitalised, or starting with a digit (they sort before the generated helper ids)
+        names = ["Engine", "2WD", "A1", "Base", "c", "d"][:len(names)]
     base = {"k": "Stingy", "ch": [rule_ast(rng, names, i) for i in range(rng.randint(1, 3))], "id": "cfg" if rng.random() < 0.9 else None}
     fam, kinds, pairs = [base], [], []
     for _ in range(rng.randint(1, 3)):
@@ -304,7 +307,8 @@ def gen_cfg_family(rng):
     # ids that are a package (a sub-proposition) in one member of the family are not used as items by later additions: an item
     # reference to a sub-proposition's id is a by-id reference, outside the plain models this check speaks about
     pk0 = {c_["id"] for m_ in fam for r_ in m_.get("ch", []) if isinstance(r_, dict) for c_ in r_.get("ch", []) if isinstance(c_, dict) and c_["k"] not in ("str", "var") and c_.get("id")}
-    names = [n_ for n_ in names if n_ not in pk0] or ["zq"]
+    names = [n_ for n_ in names if n_ not in pk0]
+    names += [f"zq{k_}" for k_ in range(max(0, 4 - len(names)))]      # the rule generators need a handful of item names
     if rng.random() < 0.3:
         fam.append({"k": "addto", "src": rng.randrange(len(fam)), "rule": dict(rule_ast(rng, names, 9), id="RX")})
         kinds.append("derived_by_add")
